@@ -887,7 +887,11 @@ void matrix_exponential(gsl_matrix_complex* eA, const gsl_matrix_complex *A){
   B.reset(A->size1,A->size2);
   gsl_matrix_complex_memcpy(B,A);
   gsl_matrix_complex_scale(B,gsl_complex_rect(pow(2.,s*(-1.)),0));
-  s += ell(B,13);
+  int ell_B = ell(B,13);
+  if (ell_B > 0){ // the matrix handed to pade13 must carry the same scaling as its powers
+    gsl_matrix_complex_scale(B,gsl_complex_rect(pow(2.,ell_B*(-1.)),0));
+    s += ell_B;
+  }
   //std::cout << "s " << s << std::endl;
   // rescale all matrices
   /*
